@@ -16,7 +16,7 @@ MACHINE = [
 PROPS = {
     "C08": dict(
         probes=["arith:+", "arith:-", "arith:*", "arith:/", "arith:%", "arith:**", "arith:<<", "arith:>>", "unary:-",
-                "bitwise", "compare", "float", "eq", "expr_random", "peephole"],
+                "bitwise", "compare", "float", "eq", "expr_random", "peephole", "order"],
         explanation="scalar operator functions proved against the documented arithmetic (V: mathematical integers on the "
                     "verbatim bodies; K: bit-precise over the full i64/f64/bool domain on the real crate); dispatch of "
                     "every BinOperator/UnaryOperator and of every compound assignment to the right operator function (V); "
